@@ -18,6 +18,7 @@
 -/
 import ICG.Props.C09
 import ICG.Lemmas.ListMax
+import Mathlib.Algebra.Order.Ring.Rat
 
 namespace ICG.C13
 open ICG Table Env ICG.C09
@@ -376,5 +377,26 @@ example : demoSolve.map (·.2.2) = some (2, 0, 0) := by decide +kernel
 
 example : demoSolve.map (fun p => (p.1.randomOk 1, p.1.randomOk 3, p.2.1.actionMasks, p.2.1.steps)) =
     some (true, false, [true, true, true], 0) := by decide +kernel
+
+/-! ### the model's own computers satisfy `Hyps`; the theorems are about the functions the driver runs -/
+
+/-- reference / cached / approximate computer with any gap function that reads rows only and does not raise -/
+theorem real_hyps [Add α] [Sub α] [LinearOrder α] [Zero α] [Neg α] (k : Computer) {gap : Table α → Except Err α}
+    {P : Params} (hro : RowsOnly gap) (hgt : GapTotal gap) (hP : P.WF) (hmin : P.Minimal) :
+    Hyps (k.run : Table α → Except Err (Table α)) gap P where
+  ok := computer_ok k
+  ko := computer_knowledgeOnly k
+  ro := hro
+  tot := computer_computeTotal k hmin
+  gtot := hgt
+  wf := hP
+
+/-- specialisation to the model at core `Rat` with core's own instances (what `lean/Driver.lean` links) -/
+example (compute : Table Rat → Except Err (Table Rat)) (gap : Table Rat → Except Err Rat) (P : Params)
+    (H : Hyps compute gap P) (e : Env Rat) (s : Spec Rat) (h : Inv compute P e s) (hne : e.validActions ≠ []) :
+    ∃ e' a m, @Env.greedy Rat _ Rat.instNeg Rat.instSub instDecidableEqRat compute gap Rat.instMax Rat.instMin false e
+        = .ok (e', a) ∧ EnvEq e' e ∧ a ∈ e.validActions ∧ stepReward compute gap e a = some m :=
+  let ⟨e', a, m, h1, h2, _, h4, h5, _⟩ := greedy_spec H h hne
+  ⟨e', a, m, h1, h2, h4, h5⟩
 
 end ICG.C13
